@@ -266,6 +266,70 @@ def run_rx(pid, tier, rep, deadline_s):
     rep.assumptions = ['patterns reach the real front-end through string_view_buffer / a checked user buffer instead of cstring_buffer, and dfa_builder<N> with a large fixed N instead of the predicted size (bound to the user-visible path by the compile-time conformance replays)',
                        'reference regex semantics: /verif/ref/regex.hpp (two independent matchers cross-checked on every short string)']
 
+# ----------------------------------------------------------------------------- compiled black-box programs (E-IN / E-CT)
+BB_FLAGS = ['-std=c++17', '-O1', '-I' + os.path.join(REPO, 'include')]
+
+def build_prog(name, src, compiler, extra_flags=()):
+    deps = [os.path.join(VERIF, 'ref', 'lr1.hpp'), os.path.join(VERIF, 'ref', 'regex.hpp')]
+    return common.build_single(name, os.path.join(VERIF, 'progs', src), deps, BB_FLAGS + list(extra_flags), compiler)
+
+def run_progs(pid, rep, specs, deadline_s):
+    """specs: list of dict(name, src, compilers, flags, args, label). Each program prints one JSON line with cases/checks/failures."""
+    jobs = []
+    for sp in specs:
+        for comp in sp.get('compilers', ['g++', 'clang++']):
+            jobs.append((sp, comp))
+    from concurrent.futures import ThreadPoolExecutor
+    def build(j):
+        sp, comp = j
+        return build_prog('%s_%s' % (sp['name'], comp.replace('+', 'p')), sp['src'], comp, sp.get('flags', ()))
+    with ThreadPoolExecutor(max_workers=NCPU) as ex: exes = list(ex.map(build, jobs))
+    totals = {'cases': 0, 'checks': 0, 'programs': 0}; samples = []; bounds = []; extra = {}
+    def run(je):
+        (sp, comp), exe = je
+        if isinstance(exe, tuple): return None
+        return sh([exe] + [str(a) for a in sp.get('args', [])], timeout=max(30, deadline_s))
+    with ThreadPoolExecutor(max_workers=NCPU) as ex: outs = list(ex.map(run, zip(jobs, exes)))
+    for (sp, comp), exe, r in zip(jobs, exes, outs):
+        label = '%s [%s]' % (sp.get('label', sp['name']), comp)
+        if isinstance(exe, tuple):
+            msg = [l for l in exe[1].splitlines() if 'error' in l][:3]
+            rep.add({'kind': 'does-not-compile', 'known': '', 'engine': 'prog', 'summary': '%s: the documented usage exercised by progs/%s no longer compiles: %s' % (label, sp['src'], ' / '.join(msg)[:600]), 'program': sp['src'], 'compiler': comp})
+            bounds.append({'pass': label, 'completed': False}); continue
+        line = (r.stdout.strip().splitlines() or [''])[-1]
+        try: res = json.loads(line)
+        except Exception:
+            rep.add({'kind': 'program-crashed', 'known': '', 'engine': 'prog', 'summary': '%s exited %s without a result: %s' % (label, r.returncode, (r.stdout + r.stderr)[-400:]), 'program': sp['src'], 'compiler': comp}); continue
+        totals['cases'] += res.get('cases', 0); totals['checks'] += res.get('checks', 0); totals['programs'] += 1
+        for k, v in res.items():
+            if isinstance(v, int) and k not in ('cases', 'checks', 'failures'): extra[k] = extra.get(k, 0) + v
+        bounds.append({'pass': label, 'completed': True, 'cases': res.get('cases', 0)})
+        samples.append({'program': sp['src'], 'compiler': comp, 'args': sp.get('args', []), 'result': res})
+        if res.get('failures', 0) or r.returncode != 0:
+            rep.add({'kind': 'check-failed', 'known': '', 'engine': 'prog', 'summary': '%s: %d failing checks; first: %s' % (label, res.get('failures', 0), res.get('first_failure', '')), 'program': sp['src'], 'compiler': comp, 'args': sp.get('args', []), 'count': res.get('failures', 1)})
+    return totals, samples, bounds, extra
+
+PROG_SPECS = {
+ 'C19': lambda q: [dict(name='c19', src='c19_helpers.cpp', label='helper functors: all positions x arities 1..9 x value categories', flags=['-O0'])],
+ 'C13': lambda q: [dict(name='c13', src='c13_context.cpp', args=[4 if q else 6], label='16 >=/>>= assignments x 6 call forms x inputs<=%d over {a,b,foreign}' % (4 if q else 6), compilers=['g++'] if q else ['g++', 'clang++'])],
+ 'C14': lambda q: [dict(name='c14', src='c14_values.cpp', args=[4 if q else 6], label='instrumented copyable value type, inputs<=%d over 7 bytes' % (4 if q else 6), compilers=['g++'] if q else ['g++', 'clang++']),
+                   dict(name='c14m', src='c14_values.cpp', args=[3 if q else 5], flags=['-DMOVE_ONLY'], label='move-only value type (compile probe + run), inputs<=%d' % (3 if q else 5), compilers=['g++', 'clang++'])],
+}
+PROG_RULE = {
+ 'C19': 'Complete enumeration (the space is finite): _e1.._e9 x arity N..9; construct<T,I> x I<=arity<=9; push_back<C,A> and emplace_back<C,A> x all 72 ordered position pairs x every arity max(C,A)..9; val / create x arity 0..9; value categories lvalue, const lvalue, rvalue, move-only rvalue. Every other argument is a Poison object without copy, move or conversions (any use fails to compile); results are checked by type (static_assert), by address identity and by the unchanged data() pointer of the returned container. Compiled and run with g++ and clang++.',
+ 'C13': 'One 4-rule grammar in all 16 assignments of >= / >>= (16 parser instantiations) x call forms {non-const lvalue, const lvalue, prvalue, moved lvalue of a move-only type, lvalue with options+stream, parse()} x every input up to the bound over {a, b, foreign byte}. Functors log rule, argument count, address/constness/value category of the context and a generation counter kept in the context; the expected call sequence is the reduction sequence of the documented driver on a reference LR(1) table.',
+ 'C14': 'A grammar with nterm<V>, a typed term producing V, list building, a nullable rule, operator precedence and an error rule; V is instrumented (identity per value, copy/move/destroy counters, live set). Every input up to the bound over the 6 terminals plus a foreign byte is parsed; invariants per execution: no copies, every value destroyed exactly once, each value handed to at most one functor call, no functor sees a moved-from value, nothing alive after the call. A second build with a move-only V (copy constructor deleted) must compile and satisfy the same invariants.',
+}
+
+def run_prog_check(pid, tier, rep, deadline_s):
+    q = tier == 'quick'
+    totals, samples, bounds, extra = run_progs(pid, rep, PROG_SPECS[pid](q), deadline_s)
+    rep.coverage = {'states': max(totals['cases'], 1), 'transitions': max(totals['checks'], 1), 'traces_validated_against_impl': totals['cases'],
+                    'samples': samples or [{'note': 'no program ran'}], 'evaluations': totals['cases'], 'distinct_nontrivial': totals['cases'], 'rule': PROG_RULE[pid],
+                    'exhaustive': all(b['completed'] for b in bounds), 'bounds': bounds, 'counters': extra,
+                    'what_states_and_transitions_are': 'states = enumerated cases (configuration x input), all executed on the real library through its public interface; transitions = individual oracle checks evaluated'}
+    rep.assumptions = ['black-box: compiled without the verification guard and without access to private members']
+
 # ----------------------------------------------------------------------------- dispatch
 QUICK_DEADLINE, THOROUGH_DEADLINE = 240, 1500
 
@@ -293,6 +357,7 @@ def main(argv):
         deadline = QUICK_DEADLINE if tier == 'quick' else THOROUGH_DEADLINE
         if pid in GRAM_PROPS: run_gram(pid, tier, rep, deadline)
         elif pid in RX_PROPS: run_rx(pid, tier, rep, deadline)
+        elif pid in PROG_SPECS: run_prog_check(pid, tier, rep, deadline)
         else: print('no check for ' + pid); return 2
         return rep.finish()
     except HarnessError as e:
